@@ -126,13 +126,16 @@ def classify_prop_name(s, ver):
     return None
 
 
-def impl_safe(s):
-    """TYPE_21_REGEX of the code as found backtracks exponentially in the length of the prefix before the first
-    character it cannot match; names sent to the implementation keep that prefix short (the final newline
-    that `$` lets through is no such character)."""
+def impl_safe(s, nested, dollar21):
+    """TYPE_21_REGEX of the code as found (nested quantifiers) backtracks exponentially in the length of the
+    prefix before the first character it cannot match; while the implementation has that regex (the time-limited
+    probe did not come back) names sent to it keep that prefix short.  With a `$` anchor the final newline is
+    no such character."""
+    if not nested:
+        return True
     for i, c in enumerate(s):
         if c not in TYPE_CHARS:
-            if c == "\n" and i == len(s) - 1:
+            if c == "\n" and i == len(s) - 1 and dollar21:
                 return True
             return i <= 14
     return True
@@ -184,8 +187,7 @@ def gen_names(run, n):
             s = rng.choice(list(DIGITS + "-_A")) + gen_valid_type(rng)
         else:                                          # random short soup
             s = "".join(rng.choice(LOWER + DIGITS + "-_-_ A\n") for _ in range(rng.randrange(1, 9)))
-        if impl_safe(s):
-            out.append(s)
+        out.append(s)
     return list(dict.fromkeys(out))
 
 
@@ -588,8 +590,8 @@ def check(run):
         "a fresh interpreter and on the model (non-trivial: at least one successful registration and one lookup). Name "
         "strings (valid, one bad character, hyphen/underscore structure, length boundaries 0..300, leading character, final "
         "newline, non-ASCII) through _validate_type / _validate_props for both versions vs the model's recognisers "
-        "(non-trivial: not refused by all four). Names whose first unmatchable character lies beyond index 14 are not sent "
-        "to the implementation (exponential backtracking of TYPE_21_REGEX as found; measured separately with a time limit).")
+        "(non-trivial: not refused by all four). While the time-limited probe shows TYPE_21_REGEX backtracking "
+        "exponentially, names whose first unmatchable character lies beyond index 14 are not sent to the implementation.")
     gen_ok, info, res = False, None, None
     with common.Lock():
         try:
@@ -676,7 +678,11 @@ def check(run):
                                             {"kind": "backtracking", "name": BACKTRACK_NAME, "limit": BACKTRACK_LIMIT}))
 
     # ---- names
-    names = gen_names(run, n_names)
+    nested = isinstance(bt, dict) and "timeout" in bt
+    names_all = gen_names(run, n_names)
+    names = [s for s in names_all if impl_safe(s, nested, accepted("end21"))]
+    run.coverage["names_generated"] = len(names_all)
+    run.coverage["names_withheld_for_backtracking"] = len(names_all) - len(names)
     name_cases = [{"k": "names", "names": names[i:i + 200]} for i in range(0, len(names), 200)]
     nres = []
     for part in common.run_impl("c19_impl", name_cases, procs=min(common.NCPU, max(1, len(name_cases) // 2))):
